@@ -354,7 +354,7 @@ __CPROVER_assigns(g_filt[0], modified)
                subs=[(r"Filtration_value& (\w+) = _to_node_it\(sh\)->second\.filtration\(\);", r"Filtration_value* vp_cur = &g_filt[sh];\n#define \1 (*vp_cur)"),
                      (r"for \(Simplex_handle (\w+) : boundary_simplex_range\(sh\)\) \{", r"for (size_t vp_b = 0; vp_b < g_nb; vp_b++) { Simplex_handle \1 = vp_b + 1;"),
                      (r"(\w+)->second\.filtration\(\)", r"g_filt[\1]"),
-                     (r"intersect_lifetimes\(current_filt, ", "intersect_lifetimes(vp_cur, ")],
+                     (r"intersect_lifetimes\((\w+), ", r"intersect_lifetimes(&(\1), ")],
                canary=(r"if \(dim == 0\) return;", "if (dim <= 1) return;"))
     U.append(Unit("value.make_filtration_non_decreasing.visit", "C03", [f_il, f_vis], enforce="mfnd_visit", replace=["intersect_lifetimes"], globals_=G, unwind=NB + 2,
                   route="B", bound=f"simplices with at most {NB} boundary simplices (dimension <= {NB - 1}); values symbolic, non-NaN", inputs=["in_dim", "g_nb", "g_filt"],
